@@ -427,6 +427,15 @@ func c17Setters(c *Ctx, F *model.Fields) {
 
 func c17Fresh(c *Ctx, F *model.Fields) {
 	R := c.R
+	freshTables(c, "C17.R4", nil, 10)
+	c17Ctors(c)
+	_ = R
+}
+
+// freshTables: only freshly made maps/slices (or append results on the policy's own field) are stored into the Policy
+// table fields selected by want (nil: all).
+func freshTables(c *Ctx, rule string, want func(field string) bool, min int) {
+	R := c.R
 	// stores of map/slice values into Policy fields anywhere in the module
 	n := 0
 	for _, fn := range moduleFuncs(c.P) {
@@ -441,7 +450,7 @@ func c17Fresh(c *Ctx, F *model.Fields) {
 					continue
 				}
 				f := model.PolicyField(st.Addr)
-				if f == "" {
+				if f == "" || (want != nil && !want(f)) {
 					continue
 				}
 				switch st.Val.Type().Underlying().(type) {
@@ -466,11 +475,15 @@ func c17Fresh(c *Ctx, F *model.Fields) {
 					// make([]T, 0) lowers to a slice of a freshly allocated array
 					_, okV = v.X.(*ssa.Alloc)
 				}
-				R.Check(okV, "C17.R4", key, fmt.Sprintf("%s: Policy.%s = %s", shortFn(fn), f, stripIDs(st.Val.Name())), c.P.Pos(st.Pos()), "freshly made (or an append onto the policy's own list)", "a table obtained elsewhere (another policy, a parameter, a package variable) is installed: two policies would share and mutate it")
+				R.Check(okV, rule, key, fmt.Sprintf("%s: Policy.%s = %s", shortFn(fn), f, stripIDs(st.Val.Name())), c.P.Pos(st.Pos()), "freshly made (or an append onto the policy's own list)", "a table obtained elsewhere (another policy, a parameter, a package variable) is installed: two policies would share and mutate it")
 			}
 		}
 	}
-	R.Role("C17.R4", "table stores into Policy fields", n, 10)
+	R.Role(rule, "table stores into Policy fields", n, min)
+}
+
+func c17Ctors(c *Ctx) {
+	R := c.R
 	np := c.P.Func(load.ModPath, "NewPolicy")
 	for _, name := range []string{"UGCPolicy", "StrictPolicy", "StripTagsPolicy"} {
 		fn := c.P.Func(load.ModPath, name)
